@@ -42,7 +42,7 @@ func ruleInputImmutable(c *Ctx, rule string, fns []*ssa.Function) {
 func runC12(c *Ctx) {
 	P := c.P
 	c.Explanation = "Decides: (R-INPUT-IMMUTABLE) none of LCS/LCSFunc/LIS/LISFunc/LNDS/LNDSFunc/bisectRight/EditScript/editScriptFunc (nor their closures) can write through its input: every element store, copy destination, append base, clear, and every slice passed to a mutating callee (summaries computed from the callee bodies; frozen table for the standard library) has a provenance of allocations made inside the function. (R-LEAN-AGREE) in each of LISFunc and LNDSFunc the strictness of the fast-path comparison agrees with the lean of the binary search it falls back to: LNDS = (>=, right-leaning), LIS = (>, left-leaning); the lean of the in-repository search is read from its body. Each wrong pairing is wrong exactly on runs of equal elements. Does NOT decide that results are subsequences of maximum length."
-	c.rule("R-INPUT-IMMUTABLE", 18, "every write event in the subsequence functions goes through a value whose origin is Fresh")
+	c.rule("R-INPUT-IMMUTABLE", 10, "every write event in the subsequence functions goes through a value whose origin is Fresh")
 	c.rule("R-LEAN-AGREE", 4, "LNDSFunc = (>=, Right), LISFunc = (>, Left); LIS/LNDS delegate with cmp.Compare")
 	c.assume("user comparison callbacks do not modify the slices (outside the rule)")
 
